@@ -460,7 +460,10 @@ Definition rdm_rd_fsr_data0 (st : rdm_st) (id : N) (start : Z) : rdm_st * N * bo
       let idx_entry := Z.quot d1 (Z.of_N (sg_spd d)) in
       let '(st4, b2) := rdm_idx_rd st3 (Z.of_N SIZEOF_payload_header + 8 * idx_entry)%Z 8 in
       let offset := fm_dec b2 in
-      if offset =? 0 then rdm_data0_finish st4 id start (rdm_i64_max - 2147483647)%Z      (* omitted: "assume full chunk" *)
+      if offset =? 0 then
+        (* omitted: "assume full chunk".  For start >= INT64_MAX - INT32_MAX nothing is reconstructed and the C goes on with what
+           the buffer holds (ghost: stale) *)
+        rdm_data0_finish (rdm_set_stale st4 (negb (start <? rdm_i64_max - 2147483647)%Z)) id start (rdm_i64_max - 2147483647)%Z
       else
         let '(st5, rc5) := rdm_seek st4 offset in
         if negb (rc5 =? 0) then (st5, JLS_ERROR_NOT_FOUND, false)
@@ -476,6 +479,13 @@ Definition rdm_rd_fsr_data0 (st : rdm_st) (id : N) (start : Z) : rdm_st * N * bo
 Record rdm_piece := { rdm_pc_src : list N; rdm_pc_sbit : N; rdm_pc_dbit : N; rdm_pc_cnt : N; rdm_pc_omit : bool }.
 Definition rdm_apply_piece (dst : list N) (p : rdm_piece) : bc_res :=
   bc_bit_copy dst (rdm_pc_dbit p) (rdm_pc_src p) (rdm_pc_sbit p) (rdm_pc_cnt p).
+
+(* the caller's buffer after the pieces (oldest first); None = a piece does not fit *)
+Fixpoint rdm_apply_pieces (dst : list N) (pcs : list rdm_piece) : option (list N) :=
+  match pcs with
+  | [] => Some dst
+  | p :: r => match rdm_apply_piece dst p with BC_ok d => rdm_apply_pieces d r | _ => None end
+  end.
 
 (* "while (data_length > 0)".  (state, rc, caller's buffer, pieces newest first) *)
 Fixpoint rdm_fsr_loop (fuel : nat) (st : rdm_st) (id : N) (esb : N) (start : Z) (data_length : Z) (dst : list N) (dst_bit : N)
